@@ -31,9 +31,32 @@ Definition no_child : R -> R := fun _ => 0.
 Definition at_init {P A} (r : tresult P A) (f : R -> option R) : option R :=
   match r_init r with Some t0 => f t0 | None => None end.
 
+(* ---- chained transformations: bijector inputs of every link are a pair (unused components 0) --- *)
+Definition cScale : R * R -> bijector := fun a => bScale (fst a).
+Definition cShift : R * R -> bijector := fun a => bShift (fst a).
+Definition cSoftplusH : R * R -> bijector := fun a => bSoftplusH (fst a).
+Definition cSigmoidLH : R * R -> bijector := fun a => bSigmoidLH (fst a) (snd a).
+
+Definition at_val (o : option R) (f : R -> option R) : option R :=
+  match o with Some t0 => f t0 | None => None end.
+
+(* value of the k-th older variable (0: the variable transformed last, ...; the original is the last) *)
+Definition nth_val (o : option (list R)) (k : nat) : option R :=
+  match o with Some l => nth_error l k | None => None end.
+
+(* Model.log_prob with a chain: the rest of the model reads the ORIGINAL variable's value *)
+Definition chain_model_lp {P A} (others : R -> R) (D : P -> dist_inst) (ls : list (@link A)) (p : P)
+    (args : list A) (t : R) : option R :=
+  match chain_up D ls p args t, chain_logpdf D ls p args t with
+  | Some vals, Some l => Some (others (last vals t) + l)
+  | _, _ => None
+  end.
+
 Ltac c14_unfold :=
   cbv beta iota zeta delta
-    [obs_close obs_none at_init clsScale clsShift clsSoftplusH clsSigmoidLH clsExp child_normal no_child
+    [obs_close obs_none at_init at_val nth_val chain_model_lp cScale cShift cSoftplusH cSigmoidLH
+     link_tdist chain_dist chain_logpdf chain_up chain_init dist_of_td td_default l_path l_spec nth_error last
+     clsScale clsShift clsSoftplusH clsSigmoidLH clsExp child_normal no_child
      transform_by var_transform transform_inst transform_cls transform_dep
      inst_tdist cls_tdist dep_tdist resolve
      model_lp_after model_lp_before r_init r_logpdf r_value
@@ -106,5 +129,18 @@ Definition agrees_a (c : acase) : bool :=
       Nat.eqb (List.length out) (List.length obs)
       && forallb (fun v => existsb (var_eqb v) obs) out
       && forallb (fun w => existsb (fun v => var_eqb v w) out) obs
+  | _, _ => false
+  end.
+
+Record ccase := mkC {
+  c_kinds : list (bool * bkind);     (* entry point (true: Var.transform) and argument shape, oldest first *)
+  c_var : var;
+  c_obs : option (list var)          (* original, intermediates, newest; None: some transformation raised *)
+}.
+
+Definition agrees_c (c : ccase) : bool :=
+  match chain_s (c_kinds c) (c_var c), c_obs c with
+  | inl _, None => true
+  | inr l, Some obs => list_eqb var_eqb l obs
   | _, _ => false
   end.
